@@ -382,6 +382,13 @@ def run(binp, tier, scratch, workers=16):
             (["remove", "a0"], True, {"m5": ("plain5.example.com", "/", t1, "running", "no"), "s3": ("*", "/", t2, "running", "no"), "z9": ("tls9.example.com", "/", t3, "running", "yes")}),
             (["remove", "z9"], True, {"m5": ("plain5.example.com", "/", t1, "running", "no"), "s3": ("*", "/", t2, "running", "no")}),
             (["remove", "m5"], True, {"s3": ("*", "/", t2, "running", "no")}),
+            # names outside ASCII that are the widest cell of their column (bytes and characters differ)
+            (["deploy", "caf\u00e9-fran\u00e7ais-m\u00fcnchen", "--target", t1, "--host", "uni.example.com", "--path-prefix", "/\u0441\u0442\u0440\u0430\u043d\u0438\u0446\u0430-\u0434\u043e\u043a"], True,
+             {"caf\u00e9-fran\u00e7ais-m\u00fcnchen": ("uni.example.com", "/\u0441\u0442\u0440\u0430\u043d\u0438\u0446\u0430-\u0434\u043e\u043a", t1, "running", "no"), "s3": ("*", "/", t2, "running", "no")}),
+            (["deploy", "\u00e9t\u00e9", "--target", t3, "--host", "ete.example.com"], True,
+             {"caf\u00e9-fran\u00e7ais-m\u00fcnchen": ("uni.example.com", "/\u0441\u0442\u0440\u0430\u043d\u0438\u0446\u0430-\u0434\u043e\u043a", t1, "running", "no"), "\u00e9t\u00e9": ("ete.example.com", "/", t3, "running", "no"), "s3": ("*", "/", t2, "running", "no")}),
+            (["remove", "caf\u00e9-fran\u00e7ais-m\u00fcnchen"], True, {"\u00e9t\u00e9": ("ete.example.com", "/", t3, "running", "no"), "s3": ("*", "/", t2, "running", "no")}),
+            (["remove", "\u00e9t\u00e9"], True, {"s3": ("*", "/", t2, "running", "no")}),
             (["remove", "s3"], True, {}),
         ]
         for args, ok, want_list in steps:
@@ -422,6 +429,6 @@ def run(binp, tier, scratch, workers=16):
         px.stop()
         up.stop()
     cov = {"evaluations": evals, "distinct_nontrivial": len(classes), "samples": samples, "exhaustive": True,
-           "rule": "(1) for each run option (http-port, https-port, debug): KAMAL_PROXY_<NAME> in {unset, valid, malformed...} x <NAME> in {unset, valid, malformed...} (flag absent), the value in force observed on a running proxy (listening port / debug-level log line); flag over environment, including a flag value equal to the built-in default; (2) all %d combinations of the deploy flags involved in validation, run with no proxy listening: a refusal must carry its message and not dial, an accepted combination must reach the dial error; (3) every client command against a live proxy in states where it succeeds and fails: exit status != 0 iff the proxy reported an error; (4) `list` rows (ANSI stripped) after each step of a history with multi-host, multi-path, multi-target, paused, stopped services" % len(combos),
+           "rule": "(1) for each run option (http-port, https-port, debug): KAMAL_PROXY_<NAME> in {unset, valid, malformed...} x <NAME> in {unset, valid, malformed...} (flag absent), the value in force observed on a running proxy (listening port / debug-level log line); flag over environment, including a flag value equal to the built-in default; (2) all %d combinations of the deploy flags involved in validation, run with no proxy listening: a refusal must carry its message and not dial, an accepted combination must reach the dial error; (3) every client command against a live proxy in states where it succeeds and fails: exit status != 0 iff the proxy reported an error; (4) `list` rows (ANSI stripped) after each step of a history with multi-host, multi-path, multi-target, paused, stopped, TLS services and service names / path prefixes outside ASCII" % len(combos),
            "bounds": "see rule"}
     return found, cov
